@@ -107,7 +107,7 @@ PLANNED = {
     "C17": (
         "Lean 4 proofs about a request-queue/batch-worker transition system for every batching policy + real Server driven on a virtual-time event loop with traces validated against the model",
         "Theorems (Props/C17.lean): pairing (every delivered response = f(own position)), at-most-once, conservation, FIFO progress bound, byte round-trip of float32 vectors — for all executions and any batch-formation policy. Tie: the real worker_loop/Evaluate under enumerated arrival schedules (bursts around 8 and 80, trickles around 1 ms, latencies), fingerprinting fake model and a real small Transformer; traces validated by the driver. PARTIAL: real gRPC transport, protobuf, executor threads are stubbed/not modelled. Full queues of 90-260-token rows (late-game 7x7/8x8). Callers that go away (Model/ServerLeave.lean: leave marks a caller; projection onto the base system, pairing, at-most-once, stayers served, non-interference, progress, quiescence, parked-and-gone never enters): client tasks cancelled while parked / queued / gathered / during the model call, L events in the trace; served models with context lengths 96/100/97 and requests at the limit.",
-        T + "asyncio.Queue FIFO semantics and the stubbed transport are trusted (partial).",
+        T + "asyncio.Queue FIFO semantics and the stubbed transport are trusted (partial); asyncio's cancellation semantics (a cancelled putter never enters, a cancelled waiter's request stays queued) are modelled by ServerLeave and compared by the tie on cancelled client tasks.",
         "5 C17, 7",
     ),
     "C18": (
@@ -125,7 +125,7 @@ PLANNED = {
     "C20": (
         "Lean 4 proofs that epochs are permutations chunked into aligned batches and that the stream is a function of the seed + exact comparison with the real datasets under recorded permutations",
         "Theorems (Props/C20.lean): an epoch's batches concatenate to a permutation of the rows; batch sizes; field alignment; merged buffers mask exactly the padding; determinism, fast-forward = consuming, pickle restarts. Tie: real xformer Dataset and ReplayBufferDataset on generated files/buffers with torch.randperm recorded as the oracle; determinism/fast-forward/pickle compared across real instances. C20_interleaved: several live iterators over one dataset object, interleaved with each other and with fast-forwards, each own one epoch of the sequential stream; evaluated by the driver (check-session) on what the real iterators return. Field kinds include integers beyond 2^24/2^53 next to float32/float16 fields. Iterators abandoned half way (SessOp.close; C20_abandoned_keeps_stream), sessions compared operation by operation with Sess.run; a 72 MB file judged on batch lengths (C20_batch_lengths); the replay window as TrainingRun.train_step builds it, every row given to the model judged by catRowOK.",
-        T + "torch.randperm is an oracle (each recorded result is checked to be a permutation); CUDA pinning not covered.",
+        T + "torch.randperm is an oracle (each recorded result is checked to be a permutation); CUDA pinning not covered. Python generator semantics (the body starts at the first next; close()/garbage collection raise GeneratorExit at the yield and run no dataset code) are modelled by Sess and compared operation by operation.",
         "5 C20",
     ),
 }
